@@ -89,6 +89,21 @@ def name_routes(r, s, s2=None):
                                                       exts=[(E.EXT_PATH, s), perm]))))
         out.append(("symlink-split", E.encode(E.Fields(level=lvl, method=b"-lhd-", os_type=os_t,
                                                        exts=[(E.EXT_PATH, s), (E.EXT_FILENAME, s2 or b"x"), perm]))))
+        # the name header AFTER a permission header of every type (symlink / directory / file), for file and directory methods, and
+        # with a second permission header changing the type afterwards: what the name decoder does must not depend on other fields
+        dperm = (E.EXT_PERM, (0o40755).to_bytes(2, "little"))
+        fperm = (E.EXT_PERM, (0o100644).to_bytes(2, "little"))
+        out.append(("perm-symlink,name/file", E.encode(E.Fields(level=lvl, method=r.choice([b"-lh0-", b"-lh5-"]), os_type=os_t,
+                                                                exts=[perm, (E.EXT_FILENAME, s)]))))
+        out.append(("perm-symlink,name,perm-dir/lhd", E.encode(E.Fields(level=lvl, method=b"-lhd-", os_type=os_t,
+                                                                        exts=[perm, (E.EXT_FILENAME, s), dperm, (E.EXT_PATH, b"d\xff")]))))
+        out.append(("perm-dir,name,perm-symlink/lhd", E.encode(E.Fields(level=lvl, method=b"-lhd-", os_type=os_t,
+                                                                        exts=[dperm, (E.EXT_FILENAME, s), perm]))))
+        out.append(("perm-file,name,path/lhd", E.encode(E.Fields(level=lvl, method=b"-lhd-", os_type=os_t,
+                                                                 exts=[fperm, (E.EXT_FILENAME, s), (E.EXT_PATH, s2 or b"d\xff")]))))
+        if len(s) < 200:
+            out.append(("perm-symlink,name/l1-file", E.encode(E.Fields(level=1, method=b"-lh5-", name=b"n", os_type=os_t,
+                                                                       exts=[perm, (E.EXT_FILENAME, s)]))))
         if len(s) < 200:
             out.append(("symlink-l0", E.encode(E.Fields(level=0, method=b"-lhd-", name=s,
                                                         area=bytes([0x55, 0, 0, 0, 0, 0]) + (0o120777).to_bytes(2, "little") + b"\0\0\0\0"))))
